@@ -135,6 +135,16 @@ def _register_env():
 _register_env()
 
 
+def _register_envledger():
+    """C12/C11 (bld-env): the ledger / inventory / metadata functions of query_env.py; spec in src_envledger.py"""
+    from . import src_envledger
+    GROUPS['envledger'] = ('SrcEnvLedger.v', src_envledger.spec_envledger,
+                           {'translator': src_envledger.EnvLedgerTranslator, 'prims': src_envledger.PRIMS})
+
+
+_register_envledger()
+
+
 def _register_ledger():
     """C11-C14 (bld-ledger): the ledger-facing cores (BeanTable.prepare, the table iterators, the balance column,
     execute_print's selection loop, transform_balances/journal); specs and translator rules in src_ledger.py"""
